@@ -903,6 +903,7 @@ func runPkg(p *Pkg, d *Desc, job *Job, res *Result, kinds map[string]bool) {
 		return sv
 	}
 	emptyStruct := &Ty{K: kStruct}
+	errTurn := 0
 	for _, m := range d.Mems {
 		if m.Kind != 'm' {
 			continue
@@ -963,12 +964,19 @@ func runPkg(p *Pkg, d *Desc, job *Job, res *Result, kinds map[string]bool) {
 			rcancel()
 			continue
 		}
-		for set := 0; set < job.Sets; set++ {
+		nsets := job.Sets
+		if len(errs) > 2 {
+			nsets += 2 * len(errs) // enough turns for every error on every kind of stub
+		}
+		for set := 0; set < nsets; set++ {
 			if len(res.Violations) > 40 {
 				break
 			}
 			V := genVals(m.In)
 			scenario := []string{"call", "error", "more", "oneway", "upgrade", "more-error", "upgrade-error", "call"}[set%8]
+			if set >= job.Sets {
+				scenario = []string{"error", "more-error", "upgrade-error"}[set%3]
+			}
 			base := strings.TrimSuffix(scenario, "-error")
 			isErr := scenario == "error" || strings.HasSuffix(scenario, "-error")
 			if isErr && len(errs) == 0 {
@@ -994,7 +1002,9 @@ func runPkg(p *Pkg, d *Desc, job *Job, res *Result, kinds map[string]bool) {
 			}
 			var em Mem
 			if isErr {
-				em = errs[w.rng.Intn(len(errs))]
+				// every declared error is used in turn (so the first and the last one are certainly exercised)
+				em = errs[errTurn%len(errs)]
+				errTurn++
 				plan.Err = em.Name
 				plan.ErrVals = genVals(em.T)
 			}
